@@ -437,8 +437,12 @@ def st_program(draw, cfg, universe=None, leaves=None):
                 free = [t for t in universe if t not in cols]
                 kinds_a = ["sel"]
                 kinds_b = ["sel", "proj"] + (["calc"] if free else [])
-                left = draw(st_unary_node(main, cols, universe, kinds_a, cfg))
-                right = draw(st_unary_node(main, cols, universe, (draw(st.sampled_from(kinds_b)),), cfg))
+                if draw(st.integers(0, 3)) == 0:
+                    # the very same object on both sides: every row joins with each of its duplicates
+                    left = right = main
+                else:
+                    left = draw(st_unary_node(main, cols, universe, kinds_a, cfg))
+                    right = draw(st_unary_node(main, cols, universe, (draw(st.sampled_from(kinds_b)),), cfg))
                 if left is not None and right is not None and all(t.is_key for t in schema(left, leaves) & schema(right, leaves)):
                     node = ("join", left, right, None)
             elif cands:
